@@ -63,8 +63,18 @@ def gen_world(rng, k):
     for m in rng.sample(FNAMES, rng.randint(1, 4)):
         if not m.startswith('_'):
             decls.append(dict(k='func', name='foo_obj_' + m, ret='void', params=[['self', 'FooObj*']], **at()))
+    # a boolean property with several accessor candidates (get_, is_, bare name), declared in whatever files
+    bprops = ''
+    if rng.random() < 0.7:
+        bflags = rng.choice([1, 3])
+        bprops = '<property name="active" type="gboolean" flags="%d"/>' % bflags
+        for acc in rng.sample(['get_active', 'is_active', 'active'], rng.randint(2, 3)):
+            decls.append(dict(k='func', name='foo_obj_' + acc, ret='gboolean', params=[['self', 'FooObj*']], **at()))
+        if bflags == 3 and rng.random() < 0.5:
+            decls.append(dict(k='func', name='foo_obj_set_active', ret='void', params=[['self', 'FooObj*'], ['v', 'gboolean']], **at()))
     dump = ('<?xml version="1.0"?><dump><class name="FooObj" get-type="foo_obj_get_type" parents="GObject">'
             + ''.join('<property name="%s" type="gint" flags="3"/>' % p for p in rng.sample(['zeta', 'alpha', 'Beta', 'a-b'], rng.randint(0, 3)))
+            + bprops
             + ''.join('<signal name="%s" return="void" when="last"/>' % p for p in rng.sample(['zz', 'changed', 'a-b'], rng.randint(0, 2)))
             + '</class></dump>')
     blocks = []
@@ -87,11 +97,16 @@ def gen_world(rng, k):
     decls.append(dict(k='func', name='foo_use_base', ret='void', params=[['thing', 'BaseThing*'], ['box', 'MidBox*'], ['mode', 'BaseMode']], **at()))
     libs = rng.sample(['libfoo-core.so.0', 'libfoo-ui.so.1', 'libfoo-extra.so.0', 'libz.so.1', 'libA.so'], rng.randint(0, 4))
     idp = None
-    if rng.random() < 0.35:
-        # several identifier prefixes and no symbol prefix: the symbol prefixes are derived from them, one a prefix of another
-        idp = ['Foo', 'FooExtra', 'FooX']
+    if k % 2 == 1 or rng.random() < 0.35:
+        # several identifier prefixes and no symbol prefix: the symbol prefixes are derived from them, one a prefix of another,
+        # tried in the order given; upper-case symbols (constants, enumeration members) match several of them
+        idp = rng.choice([['Foo', 'FooExtra', 'FooX'], ['FooExtra', 'Foo', 'FooX'], ['FooX', 'FooExtra', 'Foo']])
         decls.append(dict(k='func', name='foo_extra_run', ret='void', params=[['n', 'gint']], **at()))
         decls.append(dict(k='func', name='foo_x_go', ret='void', params=[], **at()))
+        decls.append(dict(k='const', name='FOO_EXTRA_LIMIT', value=7, **at()))
+        decls.append(dict(k='const', name='FOO_X_MAX', value=8, **at()))
+        decls.append(dict(k='const', name='FOO_EXTRA', value=9, **at()))
+        decls.append(dict(k='enum', name='FooExtraMode', members=[['FOO_EXTRA_MODE_ON', 0], ['FOO_EXTRA_MODE_OFF', 1]], **at()))
     return dict(decls=decls, blocks=blocks, dump=dump, includes=['GLib', 'GObject', 'Mid'], libraries=libs, identifier_prefixes=idp,
                 c_includes=rng.sample(['foo.h', 'foo-a.h', 'Foo-d.h', 'sub/foo-c.h'], rng.randint(0, 3)),
                 packages=rng.sample(['foo-1.0', 'glib-2.0', 'gobject-2.0', 'Zlib'], rng.randint(0, 3)))
@@ -137,6 +152,20 @@ def swap_decl_order(world, rng):
     return w
 
 
+def permute_files(world, rng):
+    """the source files supplied in another order: the declarations that are not part of a typedef/struct group (functions,
+    enumerations, aliases, constants, callbacks) come file by file in a new order of the files, each file's own order kept"""
+    w = copy.deepcopy(world)
+    decls = w['decls']
+    files = sorted(set(d['file'] for d in decls))
+    rank = {f: i for i, f in enumerate(rng.sample(files, len(files)))}
+    idx = [i for i, d in enumerate(decls) if 'tag' not in d]
+    moved = sorted((decls[i] for i in idx), key=lambda d: rank[d['file']])       # stable: order within one file kept
+    for i, d in zip(idx, moved):
+        decls[i] = d
+    return w
+
+
 def first_diff(a, b):
     la, lb = a.splitlines(), b.splitlines()
     for i, (x, y) in enumerate(zip(la, lb)):
@@ -173,6 +202,8 @@ def main(tier, seed):
             jobs.append((wi, 'comment blocks permuted #%d' % b, w2, b, None))
         jobs.append((wi, 'typedef/struct/forward declarations reordered', swap_decl_order(w, rng), 0, None))
         jobs.append((wi, 'typedef/struct reordered, other hash seed', swap_decl_order(w, rng), 31337, None))
+        for b in range(2):
+            jobs.append((wi, 'source files supplied in another order #%d' % b, permute_files(w, rng), 0, None))
     with ThreadPoolExecutor(max_workers=8) as ex:
         outs = list(ex.map(lambda j: run_variant(j[2], j[3], j[4]), jobs))
     # cold / warm cache: sequential per world
@@ -297,7 +328,7 @@ def main(tier, seed):
                           'four header files, methods, 3-8 functions, enums, aliases, constants, callbacks, a class with class structure, '
                           'properties and signals from a runtime dump, comment blocks incl. SECTION blocks); each world is scanned in fresh '
                           'processes under %d hash seeds, 2 permutations of the comment blocks, 2 reorderings of typedef/struct/forward '
-                          'declarations, cold and warm dependency cache; all outputs must be byte-identical; sibling sequences of the '
+                          'declarations, 2 orders of the source files (functions, enumerations, constants of one file before those of another), cold and warm dependency cache; all outputs must be byte-identical; sibling sequences of the '
                           'output are checked against the model order inside Coq' % nseeds)
 
 
